@@ -64,6 +64,11 @@
        ever at two places among stored / destroyed, ALSO on the panic exit
        (for every `conserves` operation, see C02)
                                              C04_conserves_NoDup
+     the same for Clone, which is not a `conserves` operation (it creates new
+       objects): on a Clone panic every object made so far has been destroyed
+       by the Drop of the partial clone, or leaked in it, none twice
+                                             C04_clone_acct (panic clause),
+                                             C04_clone_NoDup
      The three defects found in the original tree (F1 clone, F2 clear,
        F3 remove_index_drop/retain; /verif/KNOWN_FINDINGS) are genuine
        violations of this property: the pre-fix code, kept in Proofs/Legacy.v,
@@ -73,23 +78,30 @@
                                              C04_clone_legacy_refuted
        and the repaired code (Model/MapOps.v) does not on the same histories
                                              C04_clear_fixed_same_history,
-                                             C04_clone_fixed_same_history
+                                             C04_clone_fixed_same_history,
+                                             C04_retain_fixed_same_history,
+                                             C04_retain_fixed_same_history_outcome
 
    PARTLY / NOT COVERED BY A THEOREM (left to the correspondence check)
      - that the model's positions of user callbacks and the order of slot
        operations are those of the Rust code (the correspondence check runs
        the same fault-injected histories on both sides);
-     - C04_conserves_NoDup is stated for Map operations having a `conserves`
-       lemma in Proofs/Owned.v (insert*, remove*, retain, clear, lookups,
-       IntoIter::next, extend/from_iter via from_iter_acct); for the remaining
-       operations (clone, set algebra, entry chains) "never destroyed twice" is
-       carried by UB-freedom (C04_step_safe) only;
-     - Legacy: there is no separate `retain_fixed_same_history` lemma; the
-       repaired retain on that history is the Example C04_example_retain_fixed.
+     - C04_conserves_NoDup is stated for operations having a `conserves`
+       lemma: in Proofs/Owned.v insert*, remove*, retain, clear, lookups,
+       IntoIter::next, extend/from_iter via from_iter_acct; since then also
+       (Proofs/Owned2.v, restated in C02) the entry API, IntoKeys/IntoValues::next
+       and every Set method.  Clone is NOW COVERED by C04_clone_acct /
+       C04_clone_NoDup, &Set - &Set by C02_set_sub_acct.  For the remaining
+       operations (BitOr/BitAnd/BitXor of sets, which borrow and clone like Sub)
+       "never destroyed twice" is carried by UB-freedom (C04_step_safe) only;
+     - Legacy: CLOSED - the repaired retain on the history of F3 is now
+       C04_retain_fixed_same_history (+ _outcome); the Example
+       C04_example_retain_fixed is kept.
    ========================================================================== *)
 Require Import Model.Base Model.Slots Model.MapOps Model.EntryOps Model.SetOps Model.Fmt Model.Exec.
-Require Import Proofs.Hoare Proofs.Inv Proofs.Safety Proofs.Safety2 Proofs.Safety3 Proofs.Owned
-               Proofs.ExecSafe Proofs.Legacy.
+Require Import Proofs.Hoare Proofs.Inv Proofs.Safety Proofs.Safety2 Proofs.Safety3 Proofs.Spec Proofs.Owned
+               Proofs.Owned2 Proofs.ExecSafe Proofs.Legacy Proofs.Gaps.
+From Coq Require Import Permutation.
 
 (* -------------------------------------------------------------------------- *)
 (* history level: every operation, every script (= every fault position)      *)
@@ -281,6 +293,55 @@ Theorem C04_conserves_NoDup :
 Proof. exact (@conserves_NoDup). Qed.
 Print Assumptions C04_conserves_NoDup.
 
+(* Clone, ledger level (Proofs/Owned2.v).  clone_made E src n i s = the pairs the
+   Clone callbacks return, in order, when cloning slots i, i+1, ... of src from
+   callback state s, up to the first Clone panic.  PANIC clause: the partial
+   clone has by then been dropped by the unwinding (finally_drop); self w' is
+   what is left in its storage.  Every object made so far has either been
+   destroyed by that Drop (d, appended to the destroyed-list) or still sits in a
+   slot of the dead storage (owned E (self w'): leaked, which happens only when
+   a Drop panicked during the unwinding) - as multisets, so none of them twice *)
+Theorem C04_clone_acct :
+  forall (K V Q T : Type) (E : env K V Q T) (src : map K V) (w : world K V T),
+  WF src ->
+  WF (self w) ->
+  len (self w) = 0 ->
+  cap (self w) = cap src ->
+  Tidy (self w) ->
+  let made := flat_map (ids_pair E) (clone_made E src (len src) 0 (cb w)) in
+  wp (clone_from_src E src)
+    (fun (_ : unit) (w' : world K V T) =>
+       WF (self w') /\
+       Tidy (self w') /\
+       len (self w') = len src /\
+       length (clone_made E src (len src) 0 (cb w)) = len src /\
+       dropped (log w') = dropped (log w) /\
+       Permutation (owned E (self w')) made)
+    (fun w' : world K V T =>
+       exists d : list N,
+         dropped (log w') = dropped (log w) ++ d /\
+         Permutation (owned E (self w') ++ d) made)
+    w.
+Proof. exact (@clone_acct). Qed.
+Print Assumptions C04_clone_acct.
+
+(* ... hence, if the Clone callbacks return distinct new objects, no identity is
+   at two places among stored-in-the-clone / destroyed, on return AND on panic *)
+Theorem C04_clone_NoDup :
+  forall (K V Q T : Type) (E : env K V Q T) (src : map K V) (w : world K V T),
+  WF src ->
+  WF (self w) ->
+  len (self w) = 0 ->
+  cap (self w) = cap src ->
+  Tidy (self w) ->
+  NoDup (flat_map (ids_pair E) (clone_made E src (len src) 0 (cb w)) ++ dropped (log w)) ->
+  wp (clone_from_src E src)
+    (fun (_ : unit) (w' : world K V T) => NoDup (owned E (self w') ++ dropped (log w')))
+    (fun w' : world K V T => NoDup (owned E (self w') ++ dropped (log w')))
+    w.
+Proof. exact (@clone_NoDup). Qed.
+Print Assumptions C04_clone_NoDup.
+
 (* -------------------------------------------------------------------------- *)
 (* the confirmed defects of the original tree, and their repair               *)
 (* F2: clear() reset len AFTER the drop loop: a panicking Drop leaves len = 3
@@ -332,6 +393,28 @@ Theorem C04_clone_fixed_same_history :
 Proof. exact clone_fixed_same_history. Qed.
 Print Assumptions C04_clone_fixed_same_history.
 
+(* F3 repaired: retain(|_,_| false) on m3 where the Drop of key id 1 panics
+   unwinds into a well-formed container whose later Drop is not UB ... *)
+Theorem C04_retain_fixed_same_history :
+  match retain (env_map (sc_drop 1)) false pred_false (w_of m3) with
+  | Panic w' => WF (self w') /\ drop_map (env_map (sc_drop 1)) w' <> UB
+  | _ => False
+  end.
+Proof. exact retain_fixed_same_history. Qed.
+Print Assumptions C04_retain_fixed_same_history.
+
+(* ... namely: two entries survive; only the removed pair (ids 1, 2) has been
+   destroyed *)
+Theorem C04_retain_fixed_same_history_outcome :
+  match retain (env_map (sc_drop 1)) false pred_false (w_of m3) with
+  | Panic w' => len (self w') = 2 /\
+                log w' = [EvCall 0; EvDrop 1; EvDrop 2] /\
+                Spec.elems (self w') = [(k_ 5 7, v_ 6 9); (k_ 3 6, v_ 4 8)]
+  | _ => False
+  end.
+Proof. exact retain_fixed_same_history_outcome. Qed.
+Print Assumptions C04_retain_fixed_same_history_outcome.
+
 (* -------------------------------------------------------------------------- *)
 (* non-vacuity                                                                *)
 Example C04_example_WF : WF (self (w_of m3)).
@@ -367,3 +450,16 @@ Example C04_example_clone_panic :
       1; 7777; 0; 0; 8888; 8889;  1; 7777; 0; 0; 8888; 8889;
       8890; 1; 2; 0; 100001]]%N.
 Proof. vm_compute. reflexivity. Qed.
+
+(* C04_clone_acct's panic clause on a concrete history: cloning m3 where the
+   second K::clone panics (script sc_clone 2).  One pair (ids 100000, 100001) had
+   been made; the unwinding Drop of the partial clone destroys exactly these two,
+   nothing is left in its storage *)
+Example C04_example_clone_acct_panic :
+  clone_made (env_map (sc_clone 2)) m3 (len m3) 0 cs0 = [(k_ 100000 5, v_ 100001 7)] /\
+  match clone_from_src (env_map (sc_clone 2)) m3 (w_of (new_map 3)) with
+  | Panic w' => owned (env_map (sc_clone 2)) (self w') = [] /\
+                dropped (log w') = [100000; 100001]%N
+  | _ => False
+  end.
+Proof. vm_compute. repeat split; reflexivity. Qed.
